@@ -75,6 +75,7 @@ package websocket
 //@   allocates
 //@   ensures {C03} forall m: map[uint32]*hagallpb.EntityComponent @ models.EntityComponentStore.entityComponents[] :: joined(h) && (forall t: uint32 :: t in h.currentSession.entityComponents.entityComponents ==> h.currentSession.entityComponents.entityComponents[t] != m) ==> same_contents(m)
 //@   ensures {C03} forall o: *models.Session :: o != nil && !fresh(o) && old(joined(h) && sepSessions(h.currentSession, o)) ==> obsSame(o) && sepSessions(h.currentSession, o)
+//@   ensures {C03} forall o1: *models.Session, o2: *models.Session :: o1 != nil && o2 != nil && !fresh(o1) && !fresh(o2) && old(joined(h) && sepSessions(h.currentSession, o1) && sepSessions(h.currentSession, o2) && sepSessions(o1, o2)) ==> sepSessions(o1, o2)
 //@   behaviour undecodable:
 //@     assumes !decode_ok(msg)
 //@     ensures {C04} result != nil && unchanged_world()
@@ -107,6 +108,7 @@ package websocket
 //@   modifies {C03} all ghost.*
 //@   allocates
 //@   ensures {C03} forall o: *models.Session :: o != nil && !fresh(o) && old(joined(h) && sepSessions(h.currentSession, o)) ==> obsSame(o) && sepSessions(h.currentSession, o)
+//@   ensures {C03} forall o1: *models.Session, o2: *models.Session :: o1 != nil && o2 != nil && !fresh(o1) && !fresh(o2) && old(joined(h) && sepSessions(h.currentSession, o1) && sepSessions(h.currentSession, o2) && sepSessions(o1, o2)) ==> sepSessions(o1, o2)
 //@   behaviour undecodable:
 //@     assumes !decode_ok(msg)
 //@     ensures result != nil && unchanged_world()
@@ -130,6 +132,7 @@ package websocket
 //@   modifies {C03} h.currentSession.entityIDs.currentID, contents(h.currentSession.entityIDs.reusableIDs), contents(h.currentSession.entities), h.currentParticipant.entityIDs, contents(h.currentParticipant.entityIDs), all ghost.*
 //@   allocates
 //@   ensures {C03} forall o: *models.Session :: o != nil && !fresh(o) && old(joined(h) && sepSessions(h.currentSession, o)) ==> obsSame(o) && sepSessions(h.currentSession, o)
+//@   ensures {C03} forall o1: *models.Session, o2: *models.Session :: o1 != nil && o2 != nil && !fresh(o1) && !fresh(o2) && old(joined(h) && sepSessions(h.currentSession, o1) && sepSessions(h.currentSession, o2) && sepSessions(o1, o2)) ==> sepSessions(o1, o2)
 //@   behaviour undecodable:
 //@     assumes !decode_ok(msg)
 //@     ensures {C04} result != nil && unchanged_world()
@@ -162,6 +165,7 @@ package websocket
 //@   modifies {C03} h.currentSession.entities[decoded(msg, hagallpb.EntityUpdatePose).EntityId].pose, all ghost.*
 //@   allocates
 //@   ensures {C03} forall o: *models.Session :: o != nil && !fresh(o) && old(joined(h) && sepSessions(h.currentSession, o)) ==> obsSame(o) && sepSessions(h.currentSession, o)
+//@   ensures {C03} forall o1: *models.Session, o2: *models.Session :: o1 != nil && o2 != nil && !fresh(o1) && !fresh(o2) && old(joined(h) && sepSessions(h.currentSession, o1) && sepSessions(h.currentSession, o2) && sepSessions(o1, o2)) ==> sepSessions(o1, o2)
 //@   behaviour undecodable:
 //@     assumes !decode_ok(msg)
 //@     ensures result != nil && unchanged_world()
@@ -202,6 +206,7 @@ package websocket
 //@   modifies {C03} all ghost.*
 //@   allocates
 //@   ensures {C03} forall o: *models.Session :: o != nil && !fresh(o) && old(joined(h) && sepSessions(h.currentSession, o)) ==> obsSame(o) && sepSessions(h.currentSession, o)
+//@   ensures {C03} forall o1: *models.Session, o2: *models.Session :: o1 != nil && o2 != nil && !fresh(o1) && !fresh(o2) && old(joined(h) && sepSessions(h.currentSession, o1) && sepSessions(h.currentSession, o2) && sepSessions(o1, o2)) ==> sepSessions(o1, o2)
 //@   behaviour undecodable:
 //@     assumes !decode_ok(msg)
 //@     ensures result != nil
@@ -240,6 +245,7 @@ package websocket
 //@   modifies {C03} h.currentSession.entityComponents.ids.currentID, contents(h.currentSession.entityComponents.ids.reusableIDs), contents(h.currentSession.entityComponents.nameIndex), contents(h.currentSession.entityComponents.idIndex), all ghost.*
 //@   allocates
 //@   ensures {C03} forall o: *models.Session :: o != nil && !fresh(o) && old(joined(h) && sepSessions(h.currentSession, o)) ==> obsSame(o) && sepSessions(h.currentSession, o)
+//@   ensures {C03} forall o1: *models.Session, o2: *models.Session :: o1 != nil && o2 != nil && !fresh(o1) && !fresh(o2) && old(joined(h) && sepSessions(h.currentSession, o1) && sepSessions(h.currentSession, o2) && sepSessions(o1, o2)) ==> sepSessions(o1, o2)
 //@   behaviour undecodable:
 //@     assumes !decode_ok(msg)
 //@     ensures result != nil && unchanged_world()
@@ -274,6 +280,7 @@ package websocket
 //@   modifies {C03} all ghost.*
 //@   allocates
 //@   ensures {C03} forall o: *models.Session :: o != nil && !fresh(o) && old(joined(h) && sepSessions(h.currentSession, o)) ==> obsSame(o) && sepSessions(h.currentSession, o)
+//@   ensures {C03} forall o1: *models.Session, o2: *models.Session :: o1 != nil && o2 != nil && !fresh(o1) && !fresh(o2) && old(joined(h) && sepSessions(h.currentSession, o1) && sepSessions(h.currentSession, o2) && sepSessions(o1, o2)) ==> sepSessions(o1, o2)
 //@   behaviour undecodable:
 //@     assumes !decode_ok(msg)
 //@     ensures result != nil
@@ -307,6 +314,7 @@ package websocket
 //@   modifies {C03} all ghost.*
 //@   allocates
 //@   ensures {C03} forall o: *models.Session :: o != nil && !fresh(o) && old(joined(h) && sepSessions(h.currentSession, o)) ==> obsSame(o) && sepSessions(h.currentSession, o)
+//@   ensures {C03} forall o1: *models.Session, o2: *models.Session :: o1 != nil && o2 != nil && !fresh(o1) && !fresh(o2) && old(joined(h) && sepSessions(h.currentSession, o1) && sepSessions(h.currentSession, o2) && sepSessions(o1, o2)) ==> sepSessions(o1, o2)
 //@   behaviour undecodable:
 //@     assumes !decode_ok(msg)
 //@     ensures result != nil
@@ -343,6 +351,7 @@ package websocket
 //@   modifies {C03} contents(h.currentSession.entityComponents.entityComponents), contents(h.currentSession.entityComponents.entityComponents[decoded(msg, hagallpb.EntityComponentAddRequest).EntityComponentTypeId]), all ghost.*
 //@   allocates
 //@   ensures {C03} forall o: *models.Session :: o != nil && !fresh(o) && old(joined(h) && sepSessions(h.currentSession, o)) ==> obsSame(o) && sepSessions(h.currentSession, o)
+//@   ensures {C03} forall o1: *models.Session, o2: *models.Session :: o1 != nil && o2 != nil && !fresh(o1) && !fresh(o2) && old(joined(h) && sepSessions(h.currentSession, o1) && sepSessions(h.currentSession, o2) && sepSessions(o1, o2)) ==> sepSessions(o1, o2)
 //@   behaviour undecodable:
 //@     assumes !decode_ok(msg)
 //@     ensures result != nil && unchanged_world()
@@ -388,6 +397,7 @@ package websocket
 //@   modifies {C03} contents(h.currentSession.entityComponents.entityComponents[decoded(msg, hagallpb.EntityComponentDeleteRequest).EntityComponentTypeId]), all ghost.*
 //@   allocates
 //@   ensures {C03} forall o: *models.Session :: o != nil && !fresh(o) && old(joined(h) && sepSessions(h.currentSession, o)) ==> obsSame(o) && sepSessions(h.currentSession, o)
+//@   ensures {C03} forall o1: *models.Session, o2: *models.Session :: o1 != nil && o2 != nil && !fresh(o1) && !fresh(o2) && old(joined(h) && sepSessions(h.currentSession, o1) && sepSessions(h.currentSession, o2) && sepSessions(o1, o2)) ==> sepSessions(o1, o2)
 //@   behaviour undecodable:
 //@     assumes !decode_ok(msg)
 //@     ensures result != nil && unchanged_world()
@@ -429,6 +439,7 @@ package websocket
 //@   modifies {C03} contents(h.currentSession.entityComponents.entityComponents[decoded(msg, hagallpb.EntityComponentUpdate).EntityComponentTypeId]), all ghost.*
 //@   allocates
 //@   ensures {C03} forall o: *models.Session :: o != nil && !fresh(o) && old(joined(h) && sepSessions(h.currentSession, o)) ==> obsSame(o) && sepSessions(h.currentSession, o)
+//@   ensures {C03} forall o1: *models.Session, o2: *models.Session :: o1 != nil && o2 != nil && !fresh(o1) && !fresh(o2) && old(joined(h) && sepSessions(h.currentSession, o1) && sepSessions(h.currentSession, o2) && sepSessions(o1, o2)) ==> sepSessions(o1, o2)
 //@   behaviour undecodable:
 //@     assumes !decode_ok(msg)
 //@     ensures result != nil && unchanged_world()
@@ -466,6 +477,7 @@ package websocket
 //@   modifies {C03} all ghost.*
 //@   allocates
 //@   ensures {C03} forall o: *models.Session :: o != nil && !fresh(o) && old(joined(h) && sepSessions(h.currentSession, o)) ==> obsSame(o) && sepSessions(h.currentSession, o)
+//@   ensures {C03} forall o1: *models.Session, o2: *models.Session :: o1 != nil && o2 != nil && !fresh(o1) && !fresh(o2) && old(joined(h) && sepSessions(h.currentSession, o1) && sepSessions(h.currentSession, o2) && sepSessions(o1, o2)) ==> sepSessions(o1, o2)
 //@   behaviour undecodable:
 //@     assumes !decode_ok(msg)
 //@     ensures result != nil
@@ -496,6 +508,7 @@ package websocket
 //@   modifies {C03} contents(h.currentSession.entityComponents.subscriptions), contents(h.currentSession.entityComponents.subscriptions[decoded(msg, hagallpb.EntityComponentTypeSubscribeRequest).EntityComponentTypeId]), all ghost.*
 //@   allocates
 //@   ensures {C03} forall o: *models.Session :: o != nil && !fresh(o) && old(joined(h) && sepSessions(h.currentSession, o)) ==> obsSame(o) && sepSessions(h.currentSession, o)
+//@   ensures {C03} forall o1: *models.Session, o2: *models.Session :: o1 != nil && o2 != nil && !fresh(o1) && !fresh(o2) && old(joined(h) && sepSessions(h.currentSession, o1) && sepSessions(h.currentSession, o2) && sepSessions(o1, o2)) ==> sepSessions(o1, o2)
 //@   behaviour undecodable:
 //@     assumes !decode_ok(msg)
 //@     ensures result != nil && unchanged_world()
@@ -536,6 +549,7 @@ package websocket
 //@   modifies {C03} contents(h.currentSession.entityComponents.subscriptions[decoded(msg, hagallpb.EntityComponentTypeUnsubscribeRequest).EntityComponentTypeId]), all ghost.*
 //@   allocates
 //@   ensures {C03} forall o: *models.Session :: o != nil && !fresh(o) && old(joined(h) && sepSessions(h.currentSession, o)) ==> obsSame(o) && sepSessions(h.currentSession, o)
+//@   ensures {C03} forall o1: *models.Session, o2: *models.Session :: o1 != nil && o2 != nil && !fresh(o1) && !fresh(o2) && old(joined(h) && sepSessions(h.currentSession, o1) && sepSessions(h.currentSession, o2) && sepSessions(o1, o2)) ==> sepSessions(o1, o2)
 //@   behaviour undecodable:
 //@     assumes !decode_ok(msg)
 //@     ensures result != nil && unchanged_world()
@@ -564,6 +578,7 @@ package websocket
 //@   modifies {C03} all ghost.*, all chan.*
 //@   allocates
 //@   ensures {C03} forall o: *models.Session :: o != nil && !fresh(o) && old(joined(h) && sepSessions(h.currentSession, o)) ==> obsSame(o) && sepSessions(h.currentSession, o)
+//@   ensures {C03} forall o1: *models.Session, o2: *models.Session :: o1 != nil && o2 != nil && !fresh(o1) && !fresh(o2) && old(joined(h) && sepSessions(h.currentSession, o1) && sepSessions(h.currentSession, o2) && sepSessions(o1, o2)) ==> sepSessions(o1, o2)
 //@   behaviour undecodable:
 //@     assumes !decode_ok(msg)
 //@     ensures result != nil
@@ -607,6 +622,7 @@ package websocket
 //@   ensures {C07,C01} forall g: string :: S != nil && g != gid(serverid(R.DiscoveryService), S.ID) ==> ((g in R.sessions) <==> old(g in R.sessions)) && (g in R.sessions ==> R.sessions[g] == old(R.sessions[g]))
 //@   ensures unchanged(R.sessions, R.DiscoveryService, R.ids.currentID) && (once_done(R.initOnce) <==> old(once_done(R.initOnce)))
 //@   ensures {C03} forall o: *models.Session :: o != nil && !fresh(o) && old(joined(h) && sepSessions(h.currentSession, o)) ==> obsSame(o) && sepSessions(S, o) && (old(wfSession(o)) ==> wfSession(o))
+//@   ensures {C03} forall o1: *models.Session, o2: *models.Session :: o1 != nil && o2 != nil && !fresh(o1) && !fresh(o2) && old(joined(h) && sepSessions(h.currentSession, o1) && sepSessions(h.currentSession, o2) && sepSessions(o1, o2)) ==> sepSessions(o1, o2)
 //@   behaviour not_joined:
 //@     assumes !joined(h)
 //@     ensures unchanged_world()
@@ -633,6 +649,7 @@ package websocket
 //@     invariant wfSession(S) && member(S, P) && wfRegistry(R) && registered(R, S)
 //@     invariant unchanged(h.currentSession, h.currentParticipant, h.Sessions, h.FeatureFlags, h.stopFrameHandling)
 //@     invariant {C03} forall o: *models.Session :: o != nil && !fresh(o) && old(joined(h) && sepSessions(h.currentSession, o)) ==> obsSame(o) && sepSessions(S, o) && (old(wfSession(o)) ==> wfSession(o))
+//@     invariant {C03} forall o1: *models.Session, o2: *models.Session :: o1 != nil && o2 != nil && !fresh(o1) && !fresh(o2) && old(joined(h) && sepSessions(h.currentSession, o1) && sepSessions(h.currentSession, o2) && sepSessions(o1, o2)) ==> sepSessions(o1, o2)
 //@     invariant forall k: uint32 :: k in V ==> k in P.entityIDs
 //@     invariant forall m: map[uint32]*models.Entity @ models.Session.entities :: m != S.entities ==> same_contents(m)
 //@     invariant forall e: uint32 :: (e in S.entities) <==> (old(e in S.entities) && !(e in V && old(gone(S, P.ID, e))))
@@ -650,6 +667,7 @@ package websocket
 //@   requires forall j: int :: 0 <= j && j < len(h.Modules) ==> h.Modules[j] != nil
 //@   ensures {C06,C08} h.currentSession == nil && h.currentParticipant == nil
 //@   ensures {C03} forall o: *models.Session :: o != nil && !fresh(o) && old(joined(h) && sepSessions(h.currentSession, o)) ==> obsSame(o)
+//@   ensures {C03} forall o1: *models.Session, o2: *models.Session :: o1 != nil && o2 != nil && !fresh(o1) && !fresh(o2) && old(joined(h) && sepSessions(h.currentSession, o1) && sepSessions(h.currentSession, o2) && sepSessions(o1, o2)) ==> sepSessions(o1, o2)
 //@   behaviour not_joined:
 //@     assumes !joined(h)
 //@     ensures unchanged_world()
@@ -678,6 +696,7 @@ package websocket
 //@   ensures wfHandler(h) && wfRegistry(h.Sessions)
 //@   ensures {C07,C01} joined(h) ==> registered(h.Sessions, h.currentSession)
 //@   ensures {C03} forall o: *models.Session :: o != nil && !fresh(o) && old(joined(h) ==> sepSessions(h.currentSession, o)) && old(found ==> sepSessions(T, o)) ==> obsSame(o) && (joined(h) ==> sepSessions(h.currentSession, o))
+//@   ensures {C03} forall o1: *models.Session, o2: *models.Session :: o1 != nil && o2 != nil && !fresh(o1) && !fresh(o2) && old((joined(h) ==> sepSessions(h.currentSession, o1) && sepSessions(h.currentSession, o2)) && (found ==> sepSessions(T, o1) && sepSessions(T, o2)) && sepSessions(o1, o2)) ==> sepSessions(o1, o2)
 //@   behaviour undecodable:
 //@     assumes !decode_ok(msg)
 //@     ensures {C04} result != nil && unchanged_world()
@@ -718,6 +737,7 @@ package websocket
 //@   disjoint behaviours
 //@   loop 1:
 //@     invariant {C03} forall o: *models.Session :: o != nil && !fresh(o) && old(joined(h) ==> sepSessions(h.currentSession, o)) && old(found ==> sepSessions(T, o)) ==> obsSame(o) && (joined(h) ==> sepSessions(h.currentSession, o))
+//@     invariant {C03} forall o1: *models.Session, o2: *models.Session :: o1 != nil && o2 != nil && !fresh(o1) && !fresh(o2) && old((joined(h) ==> sepSessions(h.currentSession, o1) && sepSessions(h.currentSession, o2)) && (found ==> sepSessions(T, o1) && sepSessions(T, o2)) && sepSessions(o1, o2)) ==> sepSessions(o1, o2)
 //@     invariant -1 <= $rangeindex && $rangeindex < len(h.Modules)
 
 // ---------------------------------------------------------------------------------------------
@@ -995,6 +1015,7 @@ package websocket
 //@   modifies {C03} all models.SignedLatency.*, all ghost.*
 //@   allocates
 //@   ensures {C03} forall o: *models.Session :: o != nil && !fresh(o) && old(joined(h) && sepSessions(h.currentSession, o)) ==> obsSame(o) && sepSessions(h.currentSession, o)
+//@   ensures {C03} forall o1: *models.Session, o2: *models.Session :: o1 != nil && o2 != nil && !fresh(o1) && !fresh(o2) && old(joined(h) && sepSessions(h.currentSession, o1) && sepSessions(h.currentSession, o2) && sepSessions(o1, o2)) ==> sepSessions(o1, o2)
 //@   behaviour undecodable:
 //@     assumes !decode_ok(msg)
 //@     ensures result != nil && unchanged_world()
@@ -1027,6 +1048,7 @@ package websocket
 //@   modifies {C03} all models.SignedLatency.*, all ghost.*
 //@   allocates
 //@   ensures {C03} forall o: *models.Session :: o != nil && !fresh(o) && old(joined(h) && sepSessions(h.currentSession, o)) ==> obsSame(o) && sepSessions(h.currentSession, o)
+//@   ensures {C03} forall o1: *models.Session, o2: *models.Session :: o1 != nil && o2 != nil && !fresh(o1) && !fresh(o2) && old(joined(h) && sepSessions(h.currentSession, o1) && sepSessions(h.currentSession, o2) && sepSessions(o1, o2)) ==> sepSessions(o1, o2)
 //@   behaviour undecodable:
 //@     assumes !decode_ok(msg)
 //@     ensures result != nil && unchanged_world()
